@@ -48,6 +48,7 @@ type Cfg struct {
 	ViaREST      bool     `json:"via_rest,omitempty"`      // management events go through controller/client -> controller/rest (api.go)
 	MaxReverts   int      `json:"max_reverts,omitempty"`   // volume reverts per path (0 = 1)
 	ViaRPC       bool     `json:"via_rpc,omitempty"`       // every backend's data path is the real rpc.Client -> loopback TCP -> rpc.Server -> node
+	MaxRetries   int      `json:"max_retries,omitempty"`   // retry ticks of the registration loops per path (Boot/StepB)
 	RealMon      bool     `json:"real_mon,omitempty"`      // with ViaRPC: the real monitorPing goroutine watches every backend; the harness fires its ticker (PingOK/PingF) and cuts connections (ConnDrop)
 	UnmapAnytime bool     `json:"unmap_anytime,omitempty"` // UnB is also enabled while a replica is rebuilding
 }
@@ -166,7 +167,10 @@ type cluster struct {
 	nTicks         int
 	nReverts       int
 	nUnmaps        int
-	conns          []net.Conn           // rpc connections of this execution (ViaRPC)
+	conns          []net.Conn       // rpc connections of this execution (ViaRPC)
+	boots          map[int]*task    // node -> its registration loop (sync.Task.AddReplica) under step control
+	actions        map[int][]string // node -> actions the controller has sent to it and its loop has not taken yet
+	nRetries       int
 	pendingPing    chan chan vtime.Time // set while a backend\'s real monitorPing goroutine is being started
 	failPing       map[int]bool         // node -> its next ping answer is an error (RealMon)
 	undone         map[int]bool         // write id -> undone by a volume revert to a snapshot taken before it
@@ -440,7 +444,13 @@ func (f factory) SignalToAdd(address, action string) error {
 	}
 	// the REAL remote.Factory.SignalToAdd posts the action to the replica (whose registration loop acts on it): the model
 	// node's "start" handler records it.  Real nodes keep the stand-in (nothing consumes their action channel here).
-	if _, ok := cl.nodes[n].(*ModelNode); ok {
+	_, isModel := cl.nodes[n].(*ModelNode)
+	if isModel || (cl.cfg.has(cl.cfg.Alphabet, "Boot") && bootHooked()) {
+		defer func() {
+			if !isModel {
+				cl.collectActions(n)
+			}
+		}()
 		if err := realFactory.SignalToAdd(address, action); err != nil {
 			cl.observe("signal %s %s -> refused by the replica: %v", address, action, err != nil)
 			cl.signals[len(cl.signals)-1].ok = false
@@ -553,6 +563,9 @@ func (cl *cluster) destroy() {
 		for i := 0; i < 3 && !t.done; i++ {
 			cl.stepTask(t)
 		}
+	}
+	for _, t := range cl.boots {
+		cl.killTask(t)
 	}
 	for _, n := range cl.nodes {
 		n.Destroy()
